@@ -300,12 +300,150 @@ def func_slices(mod, qualname: str):
     return [v for t in out for v in t[2:]]
 
 
+
+def plain_str_literals(mod, qualname: str):
+    """str constants of a function body in source order, without the docstring and without the literal parts of f-strings"""
+    import textwrap
+    obj = mod
+    for part in qualname.split("."):
+        obj = getattr(obj, part)
+    tree = ast.parse(textwrap.dedent(inspect.getsource(obj)))
+    fn = tree.body[0]
+    skip = set()
+    if getattr(fn, "body", None) and isinstance(fn.body[0], ast.Expr) and isinstance(fn.body[0].value, ast.Constant) and isinstance(fn.body[0].value.value, str):
+        skip.add(id(fn.body[0].value))
+    for n in ast.walk(tree):
+        if isinstance(n, ast.JoinedStr):
+            for c in ast.walk(n):
+                skip.add(id(c))
+    out = [(n.lineno, n.col_offset, n.value) for n in ast.walk(tree)
+           if isinstance(n, ast.Constant) and isinstance(n.value, str) and id(n) not in skip]
+    out.sort()
+    return [v for _, _, v in out]
+
+
+def path_arguments(mod, qualname: str, env: dict):
+    """the evaluated first argument of every .find/.findall/.iterfind call in a function, in source order"""
+    import textwrap
+    obj = mod
+    for part in qualname.split("."):
+        obj = getattr(obj, part)
+    tree = ast.parse(textwrap.dedent(inspect.getsource(obj)))
+    out = []
+    env = dict(env)
+    for n in ast.walk(tree):          # simple local constants (`ns = self.X`) the path expressions may refer to
+        if isinstance(n, ast.Assign) and len(n.targets) == 1 and isinstance(n.targets[0], ast.Name):
+            try:
+                env.setdefault(n.targets[0].id, eval(compile(ast.Expression(n.value), "<local>", "eval"), dict(env)))
+            except Exception:  # noqa
+                pass
+    for n in ast.walk(tree):
+        if isinstance(n, ast.Call) and isinstance(n.func, ast.Attribute) and n.func.attr in ("find", "findall", "iterfind") and n.args:
+            try:
+                v = eval(compile(ast.Expression(n.args[0]), "<path>", "eval"), dict(env))
+            except Exception as e:  # noqa
+                problems.append(f"{mod.__name__}.{qualname}: cannot evaluate path argument: {e}")
+                continue
+            nsmap = None
+            if len(n.args) > 1:
+                try:
+                    nsmap = eval(compile(ast.Expression(n.args[1]), "<ns>", "eval"), dict(env))
+                except Exception as e:  # noqa
+                    problems.append(f"{mod.__name__}.{qualname}: cannot evaluate namespace argument: {e}")
+            out.append((n.lineno, n.col_offset, n.func.attr, v, nsmap))
+    out.sort(key=lambda t: t[:2])
+    return [(a, v, m) for _, _, a, v, m in out]
+
+
+def lean_chars(s: str) -> str:
+    return f"{lean_str(s)}.toList"
+
+
+def xpath_steps(path: str, namespaces=None) -> str:
+    """Compile an ElementPath expression to the Lean `Hv.XPath.Step` list: tokens come from the live
+    `xml.etree.ElementPath.xpath_tokenizer` (prefix expansion as the real code does it); the token -> selector
+    classification mirrors `iterfind` / `prepare_*` of CPython 3.12 for the constructs the repository uses,
+    anything else becomes `.unsupported` (the model then refuses and the correspondence check fires)."""
+    import re as _re
+    from xml.etree import ElementPath as EP
+    if path[-1:] == "/":
+        path = path + "*"
+    if path[:1] == "/":
+        return "[.unsupported]"
+    it = iter(EP.xpath_tokenizer(path, namespaces))
+    nxt = it.__next__
+
+    def wildcard(tag):
+        return tag[:3] == "{*}" or tag[-2:] == "}*"
+
+    def one(token):
+        op = token[0]
+        if op == "":
+            tag = token[1]
+            if wildcard(tag):
+                return ".unsupported"
+            if tag[:2] == "{}":
+                tag = tag[2:]
+            return f".child {lean_chars(tag)}"
+        if op == "*":
+            return ".star"
+        if op == ".":
+            return ".self"
+        if op == "//":
+            t = nxt()
+            if t[0] == "*" or t[0] or wildcard(t[1]):
+                return ".unsupported"
+            return f".desc {lean_chars(t[1])}"
+        if op == "[":
+            signature, predicate = [], []
+            while True:
+                t = nxt()
+                if t[0] == "]":
+                    break
+                if t == ("", ""):
+                    continue
+                if t[0] and t[0][:1] in "'\"":
+                    t = "'", t[0][1:-1]
+                signature.append(t[0] or "-")
+                predicate.append(t[1])
+            signature = "".join(signature)
+            if signature == "@-":
+                return f".hasAttr {lean_chars(predicate[1])}"
+            if signature == "@-='":
+                return f".attrEq {lean_chars(predicate[1])} {lean_chars(predicate[-1])}"
+            if signature == "-" and not _re.match(r"\-?\d+$", predicate[0]):
+                return f".hasChild {lean_chars(predicate[0])}"
+            if signature == "-='" and not _re.match(r"\-?\d+$", predicate[0]) and predicate[0]:
+                return f".childText {lean_chars(predicate[0])} {lean_chars(predicate[-1])}"
+            return ".unsupported"
+        return ".unsupported"
+
+    steps = []
+    try:
+        token = nxt()
+    except StopIteration:
+        return "[]"
+    while True:
+        try:
+            steps.append(one(token))
+        except StopIteration:
+            return "[.unsupported]"
+        try:
+            token = nxt()
+            if token[0] == "/":
+                token = nxt()
+        except StopIteration:
+            break
+    return "[" + ", ".join(steps) + "]"
+
+
 def main() -> int:
     sys.path.insert(0, os.environ.get("VERIF_REPO", "/repo"))
     w = Writer()
     w.raw("/- GENERATED by harness/extract.py from /repo on every run. Do not edit. -/")
     w.raw("import Hv.Prim.Layout")
     w.raw("import Hv.Prim.Regex")
+    w.raw("import Hv.Prim.XPath")
     w.raw("namespace Hv.Extracted")
 
     # ---------------- VDI
@@ -767,6 +905,66 @@ def main() -> int:
         w.end("envelope")
     except Exception as e:  # noqa
         problems.append(f"envelope: {type(e).__name__}: {e}")
+    # ---------------- VM configuration files (C18): VMX dictionary / disks, OVF, VirtualBox, Parallels PVS
+    try:
+        from dissect.hypervisor.descriptor import ovf as m_ovf
+        from dissect.hypervisor.descriptor import pvs as m_pvs
+        from dissect.hypervisor.descriptor import vbox as m_vbox
+        from dissect.hypervisor.descriptor import vmx as m_vmxd
+        w.ns("configs")
+        # Python's str.lower() per code point (str.strip()'s white space is unicode.SPACES above)
+        lm = [(c, [ord(x) for x in chr(c).lower()]) for c in range(0x110000) if not 0xD800 <= c < 0xE000 and chr(c).lower() != chr(c)]
+        lo, hi = [e for e in lm if e[0] < 128], [e for e in lm if e[0] >= 128]
+        ent = lambda es: "[" + ", ".join(f"({c}, [{', '.join(map(str, l))}])" for c, l in es) + "]"
+        w.raw(f"def LOWER_MAP_ASCII : List (Nat × List Nat) := {ent(lo)}")
+        for i in range(0, len(hi), 200):
+            w.raw(f"def LOWER_MAP_HIGH_{i // 200} : List (Nat × List Nat) := {ent(hi[i:i + 200])}")
+        w.raw("def LOWER_MAP_HIGH : List (Nat × List Nat) := " + " ++ ".join(f"LOWER_MAP_HIGH_{i // 200}" for i in range(0, len(hi), 200)))
+        w.raw("def LOWER_MAP : List (Nat × List Nat) := LOWER_MAP_ASCII ++ LOWER_MAP_HIGH")
+        w.fp["configs.LOWER_MAP"] = hashlib.sha256(json.dumps(lm).encode()).hexdigest()
+        w.strlist("PARSE_LITS", plain_str_literals(m_vmxd, "_parse_dictionary"))
+        cls_lists = ast_string_lists(m_vmxd, "VMX.disks")
+        classes = cls_lists[0] if cls_lists else []
+        w.strlist("DEV_CLASSES", classes)
+        dl = plain_str_literals(m_vmxd, "VMX.disks")
+        if dl[:len(classes)] == list(classes):
+            dl = dl[len(classes):]
+        else:
+            problems.append("configs: VMX.disks string literals do not start with the device-class tuple")
+        w.strlist("DISKS_LITS", dl)
+        ns = dict(m_ovf.OVF.NS)
+        w.raw("def OVF_NS : List (String × String) := [" + ", ".join(f"({lean_str(k)}, {lean_str(v)})" for k, v in ns.items()) + "]")
+        w.fp["configs.OVF_NS"] = ns
+
+        def steps(name, args, i):
+            if i < len(args):
+                _, path, nsmap = args[i]
+                w.raw(f"def {name} : List Hv.XPath.Step := {xpath_steps(path, nsmap)}")
+                w.fp["configs." + name] = [path, nsmap]
+            else:
+                w.raw(f"def {name} : List Hv.XPath.Step := [.unsupported]")
+                problems.append(f"configs: no path argument for {name}")
+        init_paths = path_arguments(m_ovf, "OVF.__init__", {"self": m_ovf.OVF})
+        disks_paths = path_arguments(m_ovf, "OVF.disks", {"self": m_ovf.OVF})
+        w.strlist("OVF_PATH_ARGS", [f"{a}:{v}" for a, v, _ in init_paths + disks_paths])
+        steps("OVF_FILE_STEPS", init_paths, 0)
+        steps("OVF_DISK_STEPS", init_paths, 1)
+        steps("OVF_DRIVE_STEPS", disks_paths, 0)
+        steps("OVF_HOSTRES_STEPS", disks_paths, 1)
+        init_fmt = [v for v in plain_str_literals(m_ovf, "OVF.__init__") if "{{{" in v]
+        w.strlist("OVF_INIT_ATTRS", [v.format(**ns) for v in init_fmt])
+        w.strlist("OVF_DISKS_LITS", [v for v in plain_str_literals(m_ovf, "OVF.disks") if "{{{" not in v])
+        vp = path_arguments(m_vbox, "VBox.disks", {"self": m_vbox.VBox})
+        w.strlist("VBOX_PATH_ARGS", [f"{a}:{v}" for a, v, _ in vp])
+        steps("VBOX_DISKS_STEPS", vp, 0)
+        w.strlist("VBOX_LITS", plain_str_literals(m_vbox, "VBox.disks"))
+        pp = path_arguments(m_pvs, "PVS.disks", {"self": m_pvs.PVS})
+        w.strlist("PVS_PATH_ARGS", [f"{a}:{v}" for a, v, _ in pp])
+        steps("PVS_DISKS_STEPS", pp, 0)
+        steps("PVS_NAME_STEPS", pp, 1)
+        w.end("configs")
+    except Exception as e:  # noqa
+        problems.append(f"configs: {e}")
 
     extra = HERE / "extract_more.py"
     if extra.exists():
